@@ -425,14 +425,13 @@ def pair_cases(tier, seed, shard):
             if 1 <= eb <= 254 and mine():
                 yield enc(rnd.getrandbits(1), ea, rnd.choice(sq + (rm(),))), enc(rnd.getrandbits(1), eb, rnd.choice(sq + (rm(),))), 'product_edge'
     # F. random: small gaps with random mantissas, then fully random normal operands
-    for _ in range(3000 if quick else 60000):
-        if mine():
-            ea = rnd.randint(1, 254)
-            eb = min(254, max(1, ea + rnd.randint(-27, 27)))
-            yield enc(rnd.getrandbits(1), ea, rm()), enc(rnd.getrandbits(1), eb, rm()), 'random_small_gap'
-    for _ in range(3000 if quick else 60000):
-        if mine():
-            yield enc(rnd.getrandbits(1), rnd.randint(1, 254), rm()), enc(rnd.getrandbits(1), rnd.randint(1, 254), rm()), 'random'
+    # (the random generator is salted with the shard, so every shard draws its own share directly)
+    for _ in range(4000 if quick else 640000 // nsh):
+        ea = rnd.randint(1, 254)
+        eb = min(254, max(1, ea + rnd.randint(-27, 27)))
+        yield enc(rnd.getrandbits(1), ea, rm()), enc(rnd.getrandbits(1), eb, rm()), 'random_small_gap'
+    for _ in range(4000 if quick else 480000 // nsh):
+        yield enc(rnd.getrandbits(1), rnd.randint(1, 254), rm()), enc(rnd.getrandbits(1), rnd.randint(1, 254), rm()), 'random'
 
 
 def int_boundary():
